@@ -229,7 +229,7 @@ PENDING = {
     "C03": "contracts not completed yet (diff comparison kernel)",
     "C05": "contracts not completed yet (uniqueSlices / orderedMapKeysMergeable kernels)",
     "C07": "contracts not completed yet (validateListAttr and dispatch kernels)",
-    "C08": "contracts not completed yet (path string composition lemma + bounded element round trip)",
+    "C08": "Not decided: the round-trip law PathToString / StringToStructuredPath needs string-theory loop invariants over the escaping of '/', '[', ']', '=' and backslash that were not built, and no bounded stand-in was built either; only the absence of panics in the parsing functions (SplitPath, extractKV, elemToString, StringToStructuredPath, StringToStringSlicePath) is proved, under C20. Reading and probes of the real code (DESIGN.md section 5, hypotheses) indicate that key values ending in a backslash or containing ']/' do not round-trip.",
     "C15": "contracts not completed yet (generated ordered maps)",
     "C16": "contracts not completed yet (key string encode/decode pairing)",
     "C17": "contracts not completed yet (enum lookup kernels)",
@@ -238,7 +238,7 @@ PENDING = {
     "C23": "contracts not completed yet (set-to-notifications classification)",
     "C24": "contracts not completed yet (protomap wrapper pairing)",
     "C29": "contracts not completed yet (path struct resolution kernel)",
-    "C32": "contracts not completed yet (PruneConfigFalse per-node rule)",
+    "C32": "PruneConfigFalse is a util.ForEachField reflection walk that clears fields through reflect.Value.Set; the config-true / config-false decision per node (util.IsConfig on the schema entry) is first-order, but which fields are cleared and that config-true values are unchanged are statements about reflective stores, for which this verifier has no memory model. Not decided.",
     "C33": "contracts not completed yet (PopulateDefaults frame)",
     "C34": "contracts not completed yet (generated keyed-list helpers)",
 }
